@@ -1791,6 +1791,29 @@ func ruleC07RegistryFresh(c *Ctx) {
 				why = "the entries of the enclosing registry are copied over the registry at " + c.P.Pos(mc.Pos) + " after a CTE was registered at " + c.P.Pos(mu.Pos()) + ": a key of the input document (or an outer CTE) silently replaces the CTE of the same name"
 			}
 		}
+		// ... nor at the exit of the builder: a copy made by a deferred closure runs after every registration
+		for _, g := range withClosures(f) {
+			if g == f {
+				continue
+			}
+			var mk *ssa.MakeClosure
+			allInstrs(f, func(_ *ssa.BasicBlock, fin ssa.Instruction) {
+				if d, isD := fin.(*ssa.Defer); isD {
+					if m, isMC := d.Call.Value.(*ssa.MakeClosure); isMC && m.Fn == ssa.Value(g) {
+						mk = m
+					}
+				}
+			})
+			if mk == nil {
+				continue
+			}
+			gtb := closureTB(mk, tb)
+			for _, mc := range mapCopies(g) {
+				if !mc.Cond && gtb.Of(mc.Dst).String() == t.String() {
+					why = "the entries of the enclosing registry are copied over the registry by a deferred closure at " + c.P.Pos(mc.Pos) + ", i.e. after every CTE was registered: a key of the input document (or an outer CTE) silently replaces the CTE of the same name"
+				}
+			}
+		}
 		c.Check(why == "", "c07.registry-fresh", fmt.Sprintf("BuildCte/registration#%d/wins-over-copied-entries", n), c.P.Pos(mu.Pos()), "no unconditional copy into the registry after the registration", why)
 	})
 	if n == 0 {
